@@ -14,7 +14,7 @@ import re
 
 from ..core import AnalysisError, ClassInfo, FuncInfo, Program, call_name, const_value, dotted, unparse, walk_no_nested
 from ..packs import ecc, ord_pack
-from ..pattern import body_is, find, has, has_expr
+from ..pattern import body_is, bound, expr_is, find, has, has_expr
 from ..report import Ctx
 from ..sigtemplate import CHILDREN, AttrRoles, RecordTemplate
 from ..tables import OPERATOR_TABLE
@@ -497,30 +497,35 @@ def _loglogit_value(ctx: Ctx) -> None:
     m0 = re.fullmatch(rf'(\w+) = int\({re.escape(CH)}\.get_value\(\)\)', t0)
     ctx.add(R, 'LogLogit.get_value:choice', bool(m0), f, 'the chosen alternative is int(choice value)' if m0 else f'choice is computed as {t0}', t0)
     cv = m0.group(1) if m0 else 'choice'
-    # 2. the unavailable test is on the chosen alternative
-    tests = [n for n in walk_no_nested(f.node) if isinstance(n, ast.If) and f'{AV}[' in unparse(n.test)]
-    ok_un = any(re.fullmatch(rf'{eAV}\[{cv}\]\.get_value\(\) == 0(\.0)?', unparse(n.test)) and isinstance(n.body[0], ast.Return) for n in tests)
-    ctx.add(R, 'LogLogit.get_value:chosen-availability', ok_un, f, 'zero probability is returned iff av[choice] == 0' if ok_un else 'no test of the availability of the chosen alternative', 'av[choice]')
-    # 3. denominator: every term guarded by av of the same key
-    loops = [n for n in walk_no_nested(f.node) if isinstance(n, ast.For) and unparse(n.iter) == f'{U}.items()']
-    ok = False
-    det = ''
-    if len(loops) == 1 and isinstance(loops[0].target, ast.Tuple):
-        k, v = (unparse(x) for x in loops[0].target.elts)
-        body = loops[0].body
-        det = ' ; '.join(unparse(s) for s in body)
-        if len(body) == 1 and isinstance(body[0], ast.If) and re.fullmatch(rf'{eAV}\[{k}\]\.get_value\(\) != 0(\.0)?', unparse(body[0].test)) and len(body[0].body) == 1 and not body[0].orelse:
-            acc = body[0].body[0]
-            if isinstance(acc, ast.AugAssign) and isinstance(acc.op, ast.Add):
-                t = unparse(acc.value)
-                chosen = [unparse(s.targets[0]) for s in f.body if isinstance(s, ast.Assign) and unparse(s.value) == f'{U}[{cv}].get_value()']
-                vc_ = chosen[0] if chosen else None
-                ok = t in (f'np.exp({v}.get_value() - {vc_})', f'np.exp({v}.get_value())')
-                den = unparse(acc.target)
-                last = unparse(f.body[-1])
-                shifted = vc_ is not None and vc_ in t
-                ok = ok and (last == f'return -np.log({den})' if shifted else last in (f'return {vc_} - np.log({den})', f'return {U}[{cv}].get_value() - np.log({den})'))
-    ctx.add(R, 'LogLogit.get_value:denominator', ok, f, 'log P = V_chosen - log(sum over available i of exp(V_i)), each term guarded by av of the same key' if ok else f'LogLogit.get_value denominator not recognised: {det[:120]}', det)
+    # 2./3. shape with holes: the tests and the term are then compared one by one
+    b = find(f.node, f"""
+        _C = int({CH}.get_value())
+        ___
+        if __T:
+            return __R
+        _VC = {U}[_C].get_value()
+        _D = 0.0
+        for _I, _V in {U}.items():
+            if __G:
+                _D += __TERM
+        return __RET
+    """)
+    if b is None:
+        ctx.add(R, 'LogLogit.get_value:chosen-availability', None, f, 'the body of LogLogit.get_value is not in the expected form (choice, availability test, shifted sum over util.items(), log)', 'av[choice]')
+        ctx.add(R, 'LogLogit.get_value:denominator', None, f, 'the body of LogLogit.get_value is not in the expected form', 'denominator')
+        return
+    ok_un = expr_is(b['__T'][1], f'{AV}[_C].get_value() == 0.0', b) is not None
+    ctx.add(R, 'LogLogit.get_value:chosen-availability', ok_un, f,
+            'zero probability is returned iff av[choice] == 0' if ok_un else f'the test before the early return is {bound(b, "__T")}, not the availability of the chosen alternative being 0',
+            bound(b, '__T'), positive=True)
+    ok_g = expr_is(b['__G'][1], f'{AV}[_I].get_value() != 0.0', b) is not None
+    ok_t = expr_is(b['__TERM'][1], 'np.exp(_V.get_value() - _VC)', b) is not None
+    ok_r = expr_is(b['__RET'][1], '-np.log(_D)', b) is not None
+    ok = ok_g and ok_t and ok_r
+    det = f'if {bound(b, "__G")}: += {bound(b, "__TERM")}; return {bound(b, "__RET")}'
+    ctx.add(R, 'LogLogit.get_value:denominator', ok, f,
+            'log P = -log(sum over available i of exp(V_i - V_chosen)), each term guarded by av of the same key' if ok else
+            f'LogLogit.get_value: {det[:160]} is not -log(sum over i with av[i] != 0 of exp(V_i - V_chosen))', det, positive=True)
 
 
 # --------------------------------------------------------------------------
